@@ -59,6 +59,11 @@ trait Z: Serialize + DeserializeOwned + PartialEq + Debug + Clone + 'static {
     fn contains_bad_key(&self) -> bool {
         false
     }
+    /// for a struct with `skip_serializing_if` fields: the names of the fields that ARE written
+    /// (the converted map must have exactly these keys)
+    fn expected_keys(&self) -> Option<Vec<String>> {
+        None
+    }
 }
 
 macro_rules! z_int {
@@ -629,6 +634,139 @@ z_enum!(E3 {
     strukt: [Rec { e: E2, l: Vec<E1> }],
 });
 
+
+// ---- serde attributes: `#[serde(default, skip_serializing_if = …)]` on non-Option fields.  A skipped
+// field is simply absent from the converted map (`skip_field` is serde's default no-op) and comes
+// back as its default.  The Lean `de` has no notion of `#[serde(default)]`: the type text carries the
+// marker `defaults!`, which the driver does not parse, and the de∘ser model comparison is not made
+// for types containing it (the `ser` comparison, the round trip and the exact-keys oracle are).
+
+fn is_zero(n: &u64) -> bool {
+    *n == 0
+}
+
+#[derive(Serialize, Deserialize, PartialEq, Debug, Clone)]
+struct SkipS {
+    id: u32,
+    #[serde(default, skip_serializing_if = "Vec::is_empty")]
+    tags: Vec<String>,
+    #[serde(default, skip_serializing_if = "String::is_empty")]
+    note: String,
+    #[serde(default, skip_serializing_if = "is_zero")]
+    count: u64,
+    #[serde(default, skip_serializing_if = "Option::is_none")]
+    opt: Option<i8>,
+    last: bool,
+}
+
+impl SkipS {
+    fn present(&self) -> Vec<(&'static str, String)> {
+        let mut fs = vec![("id", self.id.sval())];
+        if !self.tags.is_empty() {
+            fs.push(("tags", self.tags.sval()));
+        }
+        if !self.note.is_empty() {
+            fs.push(("note", self.note.sval()));
+        }
+        if self.count != 0 {
+            fs.push(("count", self.count.sval()));
+        }
+        if let Some(o) = &self.opt {
+            fs.push(("opt", format!("some {}", o.sval())));
+        }
+        fs.push(("last", self.last.sval()));
+        fs
+    }
+}
+
+fn fields_sval(fs: &[(&'static str, String)]) -> String {
+    let parts: Vec<String> = fs.iter().map(|(n, v)| format!("{} {v}", hexname(n))).collect();
+    format!("struct {} {}", fs.len(), parts.join(" "))
+}
+
+impl Z for SkipS {
+    fn ty() -> String {
+        "defaults! struct SkipS".into()
+    }
+    fn gen_(rng: &mut Rng, d: usize) -> Self {
+        let d = d.saturating_sub(1);
+        SkipS {
+            id: u32::gen_(rng, d),
+            tags: if rng.chance(1, 2) { vec![] } else { (0..1 + rng.below(2)).map(|_| String::gen_(rng, d)).collect() },
+            note: if rng.chance(1, 2) { String::new() } else { format!("n{}", String::gen_(rng, d)) },
+            count: if rng.chance(1, 2) { 0 } else { 1 + rng.below(1000) as u64 },
+            opt: Option::<i8>::gen_(rng, d),
+            last: rng.chance(1, 2),
+        }
+    }
+    fn sval(&self) -> String {
+        fields_sval(&self.present())
+    }
+    fn expected_keys(&self) -> Option<Vec<String>> {
+        Some(self.present().iter().map(|(n, _)| n.to_string()).collect())
+    }
+}
+
+#[derive(Serialize, Deserialize, PartialEq, Debug, Clone)]
+enum SkipE {
+    Plain,
+    Rec {
+        #[serde(default, skip_serializing_if = "Vec::is_empty")]
+        items: Vec<u8>,
+        #[serde(default, skip_serializing_if = "String::is_empty")]
+        name: String,
+        n: i32,
+    },
+}
+
+impl SkipE {
+    fn present(&self) -> Vec<(&'static str, String)> {
+        match self {
+            SkipE::Plain => vec![],
+            SkipE::Rec { items, name, n } => {
+                let mut fs = vec![];
+                if !items.is_empty() {
+                    fs.push(("items", items.sval()));
+                }
+                if !name.is_empty() {
+                    fs.push(("name", name.sval()));
+                }
+                fs.push(("n", n.sval()));
+                fs
+            }
+        }
+    }
+}
+
+impl Z for SkipE {
+    fn ty() -> String {
+        "defaults! enum SkipE".into()
+    }
+    fn gen_(rng: &mut Rng, d: usize) -> Self {
+        let d = d.saturating_sub(1);
+        if rng.chance(1, 5) {
+            SkipE::Plain
+        } else {
+            SkipE::Rec {
+                items: if rng.chance(1, 2) { vec![] } else { (0..1 + rng.below(3)).map(|_| u8::gen_(rng, d)).collect() },
+                name: if rng.chance(1, 2) { String::new() } else { format!("x{}", String::gen_(rng, d)) },
+                n: i32::gen_(rng, d),
+            }
+        }
+    }
+    fn sval(&self) -> String {
+        match self {
+            SkipE::Plain => format!("variant {} unit unit", hexname("Plain")),
+            SkipE::Rec { .. } => format!("variant {} struct {}", hexname("Rec"), fields_sval(&self.present())),
+        }
+    }
+    fn bad_key_value(&self) -> bool {
+        !matches!(self, SkipE::Plain)
+    }
+}
+
+z_struct!(S7 { head: SkipS, e: SkipE, list: Vec<SkipS>, tail: Option<SkipE> });
+
 // ------------------------------------------------------------------ one case
 
 fn engine() -> Tera {
@@ -795,6 +933,16 @@ fn run_value_inner<T: Z>(tera: &Tera, x: &T, cross: bool) -> Out {
         Ok(Ok(v)) => v,
     };
     out.model.push((format!("ser {sv}"), format!("ok {}", encode(&v)), "ser"));
+    if let Some(keys) = x.expected_keys() {
+        out.checks += 1;
+        let mut want = keys.clone();
+        want.sort();
+        let mut got: Vec<String> = v.as_map().map(|m| m.keys().map(|k| k.to_string()).collect()).unwrap_or_default();
+        got.sort();
+        if want != got {
+            out.fails.push(format!("the converted struct has the entries {got:?}, the fields that are serialised are {want:?} (a skipped field must be absent)"));
+        }
+    }
     out.checks += 1;
     if x.contains_bad_key() {
         // the property: a key that is not a string, integer, char or bool is refused, not altered
@@ -821,7 +969,9 @@ fn run_value_inner<T: Z>(tera: &Tera, x: &T, cross: bool) -> Out {
     if owned.0 != byref.0 || owned.0 != viavd.0 {
         out.fails.push(format!("entry points disagree: owned {} / &Value {} / ValueDeserializer {}", owned.0, byref.0, viavd.0));
     }
-    out.model.push((format!("rt {ty} {sv}"), owned.0.clone(), "de∘ser"));
+    if !ty.contains("defaults!") {
+        out.model.push((format!("rt {ty} {sv}"), owned.0.clone(), "de∘ser"));
+    }
     out.tags.push(if owned.0.starts_with("ok") { "rt.ok".into() } else { "rt.err".into() });
     // 3. printing: three ways to fill the context give one text
     let mut c1 = Context::new();
@@ -1541,6 +1691,18 @@ fn fixed_runs(tera: &Tera) -> Vec<TypeRun> {
 
 fn fixed_runs_regression(tera: &Tera) -> Vec<TypeRun> {
     vec![
+        // skip_serializing_if: every skippable field skipped / none skipped
+        run_fixed::<SkipS>(tera, vec![
+            SkipS { id: 1, tags: vec![], note: String::new(), count: 0, opt: None, last: true },
+            SkipS { id: 1, tags: vec!["t".into()], note: "n".into(), count: 3, opt: Some(-1), last: false },
+            SkipS { id: 0, tags: vec![], note: "n".into(), count: 0, opt: None, last: false },
+        ]),
+        run_fixed::<SkipE>(tera, vec![
+            SkipE::Plain,
+            SkipE::Rec { items: vec![], name: String::new(), n: 0 },
+            SkipE::Rec { items: vec![1, 2], name: "x".into(), n: -5 },
+        ]),
+        run_fixed::<Vec<SkipE>>(tera, vec![vec![SkipE::Rec { items: vec![], name: String::new(), n: 7 }]]),
         run_fixed::<W>(tera, vec![W(5), W(i64::MIN)]),
         run_fixed::<WV>(tera, vec![WV(vec![vec![], vec![1]]), WV(vec![vec![]]), WV(vec![]), WV(vec![vec![1], vec![2]])]),
         run_fixed::<Vec<WV>>(tera, vec![vec![WV(vec![vec![], vec![1]])]]),
@@ -1584,6 +1746,8 @@ fn all_runners() -> Vec<Runner> {
         HashMap<bool, f64>, HashMap<i64, HashMap<String, bool>>, BTreeMap<String, BTreeMap<String, Vec<u8>>>, BTreeMap<String, E3>,
         // structs, newtype structs, enums
         S1, S2, S3, S4, S5, S6, W, WV, WS, WO, WW, WT, E1, E2, E3, Vec<E3>, (E1, E2), BTreeMap<WK, i64>, BTreeMap<E1, u8>, BTreeMap<Option<u8>, u8>,
+        // serde(default, skip_serializing_if) fields, skipped and not, in every position
+        SkipS, SkipE, Vec<SkipS>, Option<SkipS>, BTreeMap<String, SkipS>, Vec<SkipE>, (SkipS, SkipE), S7, BTreeMap<u8, SkipE>,
         // shapes the property excludes (an option or unit-like payload directly inside an Option): run for
         // correspondence and absence of panics only
         Option<Option<i64>>, Option<()>, Option<UnitS>, Option<WO>, Option<WU>, Vec<Option<Option<bool>>>, WU,
